@@ -306,16 +306,27 @@ deriving DecidableEq, Repr
 /-- Where `parser.rs` reads `prev.end_offset == next.start_offset` (pinned tree):
 * `(` after an expression: call vs. tuple (parser.rs:1213);
 * symbol after `.` / `::` (parser.rs:1232, 1282);
-* `{` after a symbol: struct literal (parser.rs:802).
+* `{` after a symbol at the start of an expression: struct literal (parser.rs:802).
 A keyword before `(`/`{` never ends an expression / names a struct in an error-free parse, so
-there a blank may be inserted but not removed. -/
-def touchRule (prev next : List UInt8) : Touch :=
-  if prev == [46] || prev == [58, 58] then .eq
-  else if next == [40] then
-    (if keywords.contains prev then .noNew else if endsExpr prev then .eq else .free)
-  else if next == [123] then
-    (if keywords.contains prev then .noNew else if isSymbolTok prev then .eq else .free)
-  else .free
+there a blank may be inserted but not removed. The same holds for `{` after a symbol that is not
+in expression position: the name of a `test` (`test name {`) and a non-generic return type
+(`) : T {`). `hist` = the previous token texts, most recent first. -/
+def touchRule (hist : List (List UInt8)) (next : List UInt8) : Touch :=
+  match hist with
+  | [] => .free
+  | prev :: before =>
+    if prev == [46] || prev == [58, 58] then .eq
+    else if next == [40] then
+      (if keywords.contains prev then .noNew else if endsExpr prev then .eq else .free)
+    else if next == [123] then
+      (if keywords.contains prev then .noNew
+       else if isSymbolTok prev then
+         (match before with
+          | [116, 101, 115, 116] :: _ => .noNew            -- `test name {`
+          | [58] :: [41] :: _ => .noNew                    -- `) : Type {`
+          | _ => .eq)
+       else .free)
+    else .free
 
 /-- Where `parser.rs` reads `prev.end_line_number == next.line_number` on an error-free parse:
 after `return` (parser.rs:684). (The two other line comparisons, parser.rs:1114 and :2899, are on
@@ -328,20 +339,19 @@ def commentsSame : List VComment → List VComment → Bool
   | _, _ => false
 
 /-- Tokens pairwise: same text, same comments, same values of the significant position facts.
-`pa`/`pb` = previous token text (none at the start). -/
-def toksSame : Option (List UInt8) → List VTok → List VTok → Bool
+`hist` = texts of the previous tokens, most recent first (at most 3 are kept). -/
+def toksSame : List (List UInt8) → List VTok → List VTok → Bool
   | _, [], [] => true
-  | prev, a :: as, b :: bs =>
+  | hist, a :: as, b :: bs =>
     a.text == b.text && commentsSame a.comments b.comments &&
-    (match prev with
-     | none => true
-     | some p =>
-       (match touchRule p a.text with
-        | .eq => a.touchesPrev == b.touchesPrev
-        | .noNew => !b.touchesPrev || a.touchesPrev
-        | .free => true) &&
-       (if lineRule p then a.sameLinePrev == b.sameLinePrev else true)) &&
-    toksSame (some a.text) as bs
+    (match touchRule hist a.text with
+     | .eq => a.touchesPrev == b.touchesPrev
+     | .noNew => !b.touchesPrev || a.touchesPrev
+     | .free => true) &&
+    (match hist with
+     | p :: _ => if lineRule p then a.sameLinePrev == b.sameLinePrev else true
+     | [] => true) &&
+    toksSame (a.text :: hist.take 2) as bs
   | _, _, _ => false
 
 /-- Optional commas (the only non-whitespace the formatter may add or remove): a `,` directly
@@ -361,11 +371,11 @@ def dropOptCommas : List VTok → List VTok
       else a :: b :: rest'
 
 def sameTokensStrict (a b : View) : Bool :=
-  toksSame none a.toks b.toks && commentsSame a.trailing b.trailing
+  toksSame [] a.toks b.toks && commentsSame a.trailing b.trailing
 
 /-- The validator's relation. -/
 def sameTokens (a b : View) : Bool :=
-  toksSame none (dropOptCommas a.toks) (dropOptCommas b.toks) && commentsSame a.trailing b.trailing
+  toksSame [] (dropOptCommas a.toks) (dropOptCommas b.toks) && commentsSame a.trailing b.trailing
 
 /-! ### Segmentations -/
 
